@@ -128,10 +128,11 @@ KB_OVER_MH = 1.380649e-23 / 1.6737236e-27
 def random_blocks(rng, side, anchor, kind):
     """Seeded piecewise-constant initial fields.
     kind: 'contrast' (density/pressure jumps up to 1e6, subsonic..transonic flow),
-          'vacuum' (near-vacuum regions), 'calm' (small velocities: wall Mach < 1)."""
+          'vacuum' (near-vacuum regions, one block with a density so small that it is a denormal number in SI units),
+          'calm' (small velocities: wall Mach < 1), 'supersonic' (cold gas, velocity jumps of several sound speeds)."""
     cx = [anchor[i] + 0.5 * side[i] for i in range(3)]
     bl = [dict(origin=cx, sides=list(side), n=1.0e6, T=100., v=(0., 0., 0.))]
-    nb = rng.randint(4, 9)
+    nb = rng.randint(4, 9) if kind != "supersonic" else rng.randint(25, 40)
     for _ in range(nb):
         o = [anchor[i] + rng.uniform(0.05, 0.95) * side[i] for i in range(3)]
         sz = [rng.uniform(0.1, 0.7) * side[i] for i in range(3)]
@@ -139,10 +140,18 @@ def random_blocks(rng, side, anchor, kind):
             n = 10 ** rng.uniform(-6, 6)
         else:
             n = 10 ** rng.uniform(3, 9)
-        T = 10 ** rng.uniform(1, 4)
+        T = 10 ** (rng.uniform(-2, 0) if kind == "supersonic" else rng.uniform(1, 4))
         c = math.sqrt(5. / 3. * KB_OVER_MH * T)
-        vm = {"contrast": 1.2, "vacuum": 0.8, "calm": 0.3}[kind] * c
+        # supersonic: cold gas (sound speed 10 .. 100 m/s) in many small blocks with velocity jumps of Mach 10 .. 100
+        vm = {"contrast": 1.2, "vacuum": 0.8, "calm": 0.3, "supersonic": 100.0}[kind] * c
+        if kind == "supersonic":
+            sz = [rng.uniform(0.1, 0.35) * side[i] for i in range(3)]
+            n = 10 ** rng.uniform(5.7, 6.2)
         bl.append(dict(origin=o, sides=sz, n=n, T=T, v=tuple(rng.uniform(-vm, vm) for _ in range(3))))
+    if kind == "vacuum":
+        # mass density 1.7e-310 .. 1.7e-309 kg m^-3: positive, but 1 / density overflows
+        o = [anchor[i] + rng.uniform(0.2, 0.8) * side[i] for i in range(3)]
+        bl.append(dict(origin=o, sides=[0.3 * side[i] for i in range(3)], n=10 ** rng.uniform(-283, -282), T=100., v=(0., 0., 0.)))
     return bl
 
 
